@@ -1218,11 +1218,8 @@ func (fc *FnCtx) structEq(a, b Val) string {
 }
 
 func (fc *FnCtx) strConcat(a, b Val, t types.Type) Val {
-	r := fc.fresh("concat", sInt)
-	fc.assumeHere(eq(sx("slen", r), sx("+", sx("slen", a.T), sx("slen", b.T))))
-	fc.assumeHere(fmt.Sprintf("(forall ((k Int)) (! (=> (and (<= 0 k) (< k (slen %s))) (= (sbyte %s k) (sbyte %s k))) :pattern ((sbyte %s k))))", a.T, r, a.T, r))
-	fc.assumeHere(fmt.Sprintf("(forall ((k Int)) (! (=> (and (<= 0 k) (< k (slen %s))) (= (sbyte %s (+ (slen %s) k)) (sbyte %s k))) :pattern ((sbyte %s k))))", b.T, r, a.T, b.T, b.T))
-	return Val{T: r, Sort: sInt, Typ: t, IsStr: true}
+	// concatenation is the spec function strcat (length and bytes axiomatised in the prelude)
+	return Val{T: sx("strcat", a.T, b.T), Sort: sInt, Typ: t, IsStr: true}
 }
 
 func (fc *FnCtx) convert(x *ssa.Convert) Val {
